@@ -12,6 +12,8 @@
   H  helpers describe the same content: empty() is !head; forEach/forEachIf pass Handle(node) and node->callback and
      forEach never stops early; the eventutil helpers touch the list only through forEachIf / remove
 """
+from .. import witness, extract
+import os
 from ..facts import AnalysisBroken, short
 from ..paths import path, pstr, last_field, root_var_id, fields_in
 from ..moves import MoveAnalysis
@@ -47,9 +49,11 @@ def check(ctx):
         check_loop_exits(ctx, tu)
         check_args(ctx, tu)
         check_helpers(ctx, tu)
+        L.check_invoked_in_place(ctx, tu, 'C01.A', lambda o: o.cls == 'CallbackListBase' or o.file.endswith('eventutil.h'))
     ctx.extra['alias_configurations_evaluated'] = ncfg
     ctx.extra['max_list_length'] = maxlen
     ctx.require(ncfg >= 100, 'C01.S: fewer than 100 configurations evaluated (%d)' % ncfg)
+    witness.check_static_unit(ctx, 'C01.H', os.path.join(extract.VERIF, 'witness', 's_meta.cpp'), 'callable detection used by forEach / forEachIf', tag='C01')
     ctx.require_min('C01.S', 5)
     ctx.require_min('C01.T', 2)
     ctx.require_min('C01.A', 1)
